@@ -41,6 +41,26 @@ CLAIMED = {
             "Does not decide k+G periodicity or numerical gauge invariance of the formulas.",
             "Trusted: Python ast, E0 index (MRO, self-attribute stores incl. setattr). getattr with computed names is not followed.",
             "DESIGN.md §3 C04"),
+    "C05": ("sibling cross-check of the Wannier-basis mutators against a frozen per-WF state set; CFG must-pass for cache "
+            "invalidation; path-sensitive None-domain execution of Rvectors.reorder",
+            "other",
+            "Decides that reorder / spin_block2interlace / double_spin rewrite every piece of per-Wannier-function state "
+            "(centres, both axes of every matrix, left and right R-vector shifts, names) with one and the same index, that "
+            "cached reduced centres and shift-dependent factors are invalidated afterwards on every path, and that "
+            "Rvectors.reorder(order) permutes both shift arrays on every path. Does not decide numerical invariance of "
+            "calculator outputs, nor invariance under unitary rotation among co-centred functions.",
+            "Trusted: Python ast, E1 CFG. The per-WF state set is frozen in the checker.",
+            "DESIGN.md §3 C05"),
+    "C06": ("conservation rules: absorb-before-drop (same-block pairing), divisor = child count and parent zeroed on all "
+            "paths (CFG must-pass), absorb path coverage, normalised initial tetrahedron weights, k-action signs",
+            "other",
+            "Decides that no code path creates or destroys K-point weight: dropped/merged points are absorbed first, "
+            "subdivision gives the children factor/N for exactly N children and zeroes the parent on every path (both "
+            "parallelepiped and tetrahedron), absorb() always adds the weight, tetrahedral grids start normalised and hand "
+            "out weighted copies, and the k-point action carries the TR and inversion signs. Does not decide that symmetry "
+            "images tile the grid (group geometry) or non-negativity of user-supplied weights.",
+            "Trusted: Python ast, E1 CFG.",
+            "DESIGN.md §3 C06"),
     "C08": ("abstract interpretation of the formula classes over a Z2xZ2 symmetry-grade lattice (a type system for TR/inversion "
             "parity): homogeneity of sums and declared-vs-inferred comparison for every consumed declaration",
             "other",
@@ -80,6 +100,16 @@ CLAIMED = {
             "frozen/outer windows. Does not decide numerical ties at exactly the threshold.",
             "Trusted: Python ast; the enumerated idioms (slice store or inner loop walking while gap < thresh).",
             "DESIGN.md §3 C15"),
+    "C16": ("writer/reader key-set comparison with class-attribute folding; constructor-call field propagation rule; "
+            "reaching-definitions freshness analysis for in-place transforms",
+            "other",
+            "Decides that every key read by EnergyResult/K__Result.from_npz is written by as_dict, that a Transform is saved "
+            "with exactly its constructor parameters, that __add__/__mul__/mul_array/transform pass every carried field from "
+            "self, that data arithmetic is element-wise with VoidResult neutral and ResultDict key-wise, and that symmetry "
+            "transformation never hands the operand's own array to the in-place Transform objects. Does not decide numerical "
+            "linearity; K__Result.__add__ concatenates k-points by design.",
+            "Trusted: Python ast, E2.",
+            "DESIGN.md §3 C16"),
     "C17": ("loop-carried def-use (accumulator chain) on dataSmooth; constant folding of permutation tuples; polynomial "
             "comparison of convolution window bounds",
             "other",
